@@ -125,6 +125,10 @@ func init() {
 		skelTarget{Name: "C04.taskHandleHookRun", File: "pkg/shell-operator/operator.go", Recv: "ShellOperator", Func: "taskHandleHookRun",
 			Fields: []string{"AllowFailure", "ExecuteOnSynchronization", "BindingContext", "MonitorIDs", "Status", "Version", "Group", "BindingType"},
 			Calls:  []string{"combineBindingContextForHook", "handleRunHook", "UpdateMetadata", "UnlockKubernetesEventsFor", "IsSynchronization", "RateLimitWait", "UpdateFailureMessage", "HookMetadataAccessor"}},
+		// the decode loop of the metrics file (Model/HookOutput.loop): Decode until io.EOF, any other error is returned
+		skelTarget{Name: "C04.MetricOperationsFromReader", File: "pkg/metric_storage/operation/operation.go", Recv: "", Func: "MetricOperationsFromReader",
+			Fields: []string{"Set", "Add", "Action", "Value"},
+			Calls:  []string{"NewDecoder", "Decode", "More", "Token", "Buffered", "InputOffset", "Unmarshal", "ReadAll"}},
 	)
 }
 
